@@ -1,8 +1,9 @@
 import Driver.Common
 import LinkVerif.Model.Commit
+import LinkVerif.Model.Mst
 
 namespace Driver.C03
-open Go.Proto Model.Vote Model.VoteSet Model.Commit Driver
+open Go.Proto Model.Vote Model.VoteSet Model.Commit Model.Mst Driver
 
 structure St where
   chain : List UInt8 := []
@@ -14,6 +15,7 @@ structure St where
   commit : Option Commit := none
   evA : Option Vote := none
   evB : Option Vote := none
+  mst : Option (List (List UInt8 × MSig)) := none
 
 def showBid (b : BlockID) : String := s!"{hexEncode b.hash}/{b.total}/{hexEncode b.phash}"
 
@@ -175,6 +177,75 @@ def step (st : St) (toks : List String) : St × String :=
       | .ok _ => (st, "ok")
       | .error e => (st, "err=" ++ showVErr e)
     | _, _, _, _ => (st, "bad-op")
+  | "verifyany" :: _ =>
+    if !st.hasVals then (st, "dead") else
+    match st.commit, argHex? toks "chain", argBid? toks "bid", argNat? toks "h" with
+    | none, _, _, _ => (st, "dead")
+    | some c, some chain, some bid, some h =>
+      match verifyCommitAny symVerify st.vals chain bid h c with
+      | .ok _ => (st, "ok")
+      | .error e => (st, "err=" ++ showVErr e)
+    | _, _, _, _ => (st, "bad-op")
+  | "cmore" :: _ =>
+    match st.commit with
+    | none => (st, "dead")
+    | some c =>
+      let first := if c.precommits.isEmpty then "nil" else match firstSome c.precommits with | some v => toString v.id | none => "synth"
+      (st, s!"first={first} type={typePrecommit} byidx={showSlots c.precommits} nilsize=0")
+  | "nilset" :: _ =>
+    (st, "h=0 r=-1 t=0 size=0 ba=nil bb=nil get=nil has23=false iscommit=false any=false maj=false addvote-panics=true peer-panics=true")
+  | "votenil" :: _ =>
+    match st.vs with
+    | none => (st, "dead")
+    | some s => (st, "added=false err=nil-vote " ++ showState st s)
+  | "vsinfo" :: _ =>
+    match st.vs with
+    | none => (st, "dead")
+    | some s => (st, s!"h={s.height} r={s.round} t={s.type} chain={hexEncode s.chain} size={s.vals.length}")
+  | "getbyaddr" :: _ =>
+    match st.vs, argHex? toks "addr" with
+    | none, _ => (st, "dead")
+    | some s, some a =>
+      match s.vals.findIdx? (fun v => v.addr = a) with
+      | none => (st, "panic")
+      | some j => (st, s!"has=true idx={j} vote={showSlots [s.votes.getD j none]}")
+    | _, _ => (st, "bad-op")
+  | "mstnew" :: _ => ({ st with mst := some [] }, "ok")
+  | "mstsig" :: _ =>
+    match st.mst, argHex? toks "addr", arg? toks "sig" with
+    | none, _, _ => (st, "dead")
+    | some l, some a, some sg =>
+      match sg.splitOn ":" with
+      | [k, n] =>
+        match n.toNat? with
+        | some n =>
+          let ms : Option MSig := if k == "good" then some (.good n) else if k == "other" then some (.other n)
+            else if k == "bad" then some (.bad n) else if k == "malformed" then some (.malformed n) else none
+          match ms with
+          | some m => ({ st with mst := some (l ++ [(a, m)]) }, "ok")
+          | none => (st, "bad-op")
+        | none => (st, "bad-op")
+      | _ => (st, "bad-op")
+    | _, _, _ => (st, "bad-op")
+  | "mstverify" :: _ =>
+    match st.mst with
+    | none => (st, "dead")
+    | some l =>
+      let vals := if arg? toks "vals" == some "nil" then none else some st.vals
+      (st, match verifySign vals l with
+        | .ok _ => "ok" | .error .empty => "err=empty" | .error .dup => "err=dup" | .error .unknown => "err=unknown"
+        | .error .malformed => "err=malformed" | .error .power => "err=power")
+  | "reconstruct" :: _ =>
+    if !st.hasVals then (st, "dead") else
+    match argNat? toks "h", argHex? toks "chain" with
+    | some h, some chain =>
+      match reconstruct symVerify chain h st.vals st.commit with
+      | none => (st, "panic")
+      | some none => (st, "ok none")
+      | some (some s) =>
+        let maj := match twoThirdsMajority s with | some b => showBid b | none => "none"
+        (st, s!"ok maj23={maj} h={s.height} r={s.round} sum={s.sum} votes={showSlots s.votes}")
+    | _, _ => (st, "bad-op")
   | "signbytes" :: _ =>
     match argHex? toks "chain", parseVote? st.chain toks with
     | some chain, some v => (st, hexEncode (String.ofList (signBytes (msgOf chain v))).toUTF8.toList)
